@@ -192,7 +192,12 @@ def impl(case):
             if not any(mask):
                 continue          # selecting no atom at all is outside the property (zero-size arrays downstream)
             mops.append(['OFilter', i, mask])
-            nt = t.filter(op[2])
+            # the selection may be given in any collection type (or as a plain string for one species)
+            kind_ = (len(mops) + len(op[2])) % 6
+            sel = {0: list, 1: tuple, 2: set, 3: frozenset, 4: (lambda x: dict.fromkeys(x).keys()), 5: list}[kind_](op[2])
+            if kind_ == 5 and len(op[2]) == 1:
+                sel = op[2][0]
+            nt = t.filter(sel)
             new(nt, [s for s in species[i] if s in op[2]], _arr(nt.coords))
         elif kind == 'split':
             n = op[2]
